@@ -75,6 +75,23 @@ M = [
     ("m35", "C19", "src/replication/hash_ring.rs", "            .filter(|r| *r != sender)\n", "", r"R19\.5"),
     ("m36", "C20", "src/simulator/rng.rs", "            rng: ChaCha8Rng::seed_from_u64(seed),", "            rng: { let _ = seed; ChaCha8Rng::from_entropy() },", r"R20\.(1|2)"),
     ("m37", "C20", "src/simulator/multi_node.rs", "                routes.sort_unstable_by_key(|(replica, _)| replica.0);\n", "", r"R20\.3"),
+    # ---- round-3/4 rules
+    ("m52", "C01", "src/redis/executor/mod.rs", "            Command::DecrBy(key, decrement) => decrement\n                .checked_neg()\n                .map(|neg| self.incr_by_impl(key, neg))\n                .unwrap_or_else(|| RespValue::err(\"ERR value is out of range\")),",
+     "            Command::DecrBy(key, decrement) => self.incr_by_impl(key, decrement.wrapping_neg()),", r"R01\.10"),
+    ("m53", "C01", "src/redis/executor/sorted_set_ops.rs", "                for (score, member) in pairs {\n                    // Single lookup for current score\n                    let current_score = zs.score(member);",
+     "                let was_empty = zs.is_empty();\n                for (score, member) in pairs {\n                    let current_score = if was_empty { None } else { zs.score(member) };", r"R01\.11"),
+    ("m54", "C13", "src/streaming/compaction.rs", "self.config.tombstone_ttl.as_millis() as u64", "self.config.tombstone_ttl.subsec_millis() as u64", r"R13\.10"),
+    ("m55", "C19", "src/replication/gossip_router.rs", "            for target in targets {", "            for target in targets.into_iter().skip(1) {", r"R19\.5"),
+    ("m56", "C16", "src/redis/commands.rs", "                        String::from_utf8_lossy(data).to_uppercase()", "                        String::from_utf8_lossy(data).to_ascii_uppercase()", r"R16\.1:frame"),
+    ("m57", "C17", "src/redis/executor/transaction_ops.rs", "        let results: Vec<RespValue> = commands.into_iter().map(|cmd| self.execute(&cmd)).collect();",
+     "        let mut results: Vec<RespValue> = Vec::new();\n        for cmd in commands {\n            if results.len() > 1000 {\n                return RespValue::err(\"ERR transaction too long\");\n            }\n            results.push(self.execute(&cmd));\n        }", r"R17\.6"),
+    ("m58", "C20", "src/simulator/dst.rs", "        self.operation_counter += 1;", "        static NEXT: std::sync::atomic::AtomicU64 = std::sync::atomic::AtomicU64::new(0);\n        self.operation_counter = NEXT.fetch_add(1, std::sync::atomic::Ordering::Relaxed) + 1;", r"R20\.6"),
+    ("m59", "C18", "src/replication/anti_entropy.rs", "        keys.iter()\n            .filter(|(key, value)| {\n                let digest = KeyDigest::new(key, value);\n                buckets.contains(&digest.bucket(depth))\n            })\n            .take(self.config.max_keys_per_sync)",
+     "        keys.iter()\n            .take(self.config.max_keys_per_sync)\n            .filter(|(key, value)| {\n                let digest = KeyDigest::new(key, value);\n                buckets.contains(&digest.bucket(depth))\n            })", r"R18\.7"),
+    ("m60", "C04", "src/production/connection_optimized.rs", "                        self.buffer.extend_from_slice(&read_buf[..n]);\n",
+     "                        self.buffer.extend_from_slice(&read_buf[..n]);\n                        if n < 2 {\n                            continue;\n                        }\n", r"R04\.8"),
+    ("m61", "C15", "src/production/connection_optimized.rs", "            RespValue::Error(s) => {\n                buf.put_u8(b'-');\n                buf.extend_from_slice(s.as_bytes());\n                buf.extend_from_slice(b\"\\r\\n\");\n            }",
+     "            RespValue::Error(s) => {\n                Self::encode_error_into(s, buf);\n            }", r"R15\.8"),
 ]
 
 
